@@ -39,6 +39,7 @@ def run(prog, rep, tier='quick', config='default'):
     r4e(prog, rep)
     r4f(prog, rep)
     r4g(prog, rep)
+    r4h(prog, rep, config)
 
 
 # ------------------------------------------------------------------------------------------------ R4a
@@ -590,3 +591,51 @@ def r4g(prog, rep):
         rep.ok('R4g', 'output-files-start-empty', fn='(all product crates)', detail='%d write-opens examined (File::create / OpenOptions)' % n, trivial=True)
     else:
         rep.violation('R4g', 'anchor-lost:write-opens', detail='anchor lost: only %d sites opening a file for writing found' % n)
+
+
+# ------------------------------------------------------------------------------------------------ R4h
+def r4h(prog, rep, config):
+    """a rejected security does not turn the run into a failure. The rejection travels inside the result (RenderTable.errors); the web UI
+    and the csv mode show it from there. Where the application looks at that field outside the exporters, no error return may depend on what
+    it finds: the caller of an Err drops the whole render model, and with it the message and the rows of every security"""
+    exporters = set()
+    for f in prog.trait_impl_methods('app::outfmt::model::AcbWriter', 'print_render_table'):
+        exporters |= set(prog.callees_closure([f]))
+    n = 0
+    for f in prog.product_fns():
+        if f.crate not in ('acb', 'acb_wasm') or f.name in exporters or f.name.endswith('::serialize'):
+            continue
+        seeds = set()
+        for i, b in f.blocks.items():
+            for s in b['stmts']:
+                for pl in f.stmt_sources(s):
+                    if any(of.endswith('render::RenderTable') and fl == 'errors' for (of, fl) in mir.place_fields(pl)):
+                        seeds.add(s['dst']['l'])
+        for c in f.calls:
+            for a in c.args:
+                if is_place(a) and any(of.endswith('render::RenderTable') and fl == 'errors' for (of, fl) in mir.place_fields(a['pl'])):
+                    seeds.add(c.dst['l'])
+        if not seeds:
+            continue
+        err_blocks = {c.bb: c for c in f.calls if c.short == 'from_residual'}
+        for i, b in f.blocks.items():
+            for s2 in b['stmts']:
+                if s2['r']['rv'] == 'agg' and s2['r']['kind'].endswith('Result::Err') and 'Result<' in (f.ty.get(s2['dst']['l'], '') or ''):
+                    err_blocks.setdefault(i, s2)
+        if not err_blocks and 'Result<' not in (f.ty.get(0, '') or ''):
+            continue
+        n += 1
+        (t, decided) = mir.forward_taint_implicit(f, seeds)
+        bad = sorted(i for i in err_blocks if i in decided)
+        k = '%s|no-failure-for-a-rejected-security' % f.name
+        if bad:
+            node = err_blocks[bad[0]]
+            rep.violation('R4h', k, where=node.where() if hasattr(node, 'where') else f.where(node), fn=f.name,
+                          detail='an Err is returned depending on RenderTable.errors (branch: %s): the caller then gives up the whole render model, '
+                                 'so in the web UI the rejection message and every security\'s rows are lost'
+                                 % f.where(f.blocks[decided[bad[0]]]['term']))
+        else:
+            rep.ok('R4h', k, fn=f.name, where='%s:%d' % (f.file, f.line),
+                   detail='%d error exit(s), none decided by a test of RenderTable.errors (%d dependent block(s))' % (len(err_blocks), len(decided)))
+    if config == 'default' and n < 1:
+        rep.violation('R4h', 'anchor-lost:errors-readers', detail='anchor lost: the application function that reads RenderTable.errors after rendering')
